@@ -210,6 +210,8 @@ class Tracer:
         self.competitor = None            # callable publishing the competing artifact
         self.on_mkdir = None
         self.outside_tmp = False
+        self.outside_files = []           # temporary files created outside the archive (removed by the harness)
+        self.nmut = 0
 
     def inside(self, path):
         try:
@@ -244,6 +246,10 @@ class Tracer:
         if self.gate is not None:
             self.gate(k, kind, arg)
         plan = self.plan
+        if plan.get("fault_index") == "mut":          # sched layer: k counts the mutating operations only
+            k = self.nmut
+            if kind not in PROBES:
+                self.nmut += 1
         if plan.get("competitor") == k and self.competitor is not None:
             self.competitor()
             self.fired.append("competitor")
@@ -399,6 +405,7 @@ def install(tr):
             tr.tmpnames[os.path.basename(f.name)] = "<tmp%d>" % len(tr.tmpnames)
             if not tr.inside(f.name):
                 tr.outside_tmp = True
+                tr.outside_files.append(f.name)
             return TFile(tr, f, f.name)
         return tr.step("tmpcreate", tr.rel(dir), do)
 
@@ -448,6 +455,27 @@ def install(tr):
 
 
 # --------------------------------------------------------------------------------------- payloads
+class frozen_time:
+    """harness set-up only (payload trees, audit trails, side uploads): no wall-clock time in the generated
+    artifacts, so that a case (e.g. 'flip bit n of the source artifact') means the same bytes when replayed"""
+    def __enter__(self):
+        import gzip, datetime
+        import bob.audit as BA
+        self.saved = (gzip.time, BA.datetime)
+        class T:
+            @staticmethod
+            def time(): return 1500000000.0
+        class D(datetime.datetime):
+            @classmethod
+            def now(cls, tz=None): return datetime.datetime(2017, 7, 14, 2, 40, tzinfo=tz)
+        gzip.time, BA.datetime = T, D
+    def __exit__(self, *a):
+        import gzip
+        import bob.audit as BA
+        gzip.time, BA.datetime = self.saved
+        return False
+
+
 class Payload:
     def __init__(self, base, name, ops, uniq):
         self.dir = os.path.join(base, name)
@@ -456,8 +484,14 @@ class Payload:
         C8.build_tree(self.root, ops)
         with open(os.path.join(self.root, "payload-id"), "w") as f:       # pairwise different by construction
             f.write("payload %s\n" % uniq)
+        for dp, dn, fn in os.walk(os.fsencode(self.root)):
+            for n in [b"."] + fn + dn:
+                try: os.utime(os.path.join(dp, n), ns=(10**18, 10**18), follow_symlinks=False)
+                except OSError: pass
         self.audit = os.path.join(self.dir, "audit.json.gz")
-        C8.make_audit(self.audit, self.root, vid=hashlib.sha1(b"v%s" % str(uniq).encode()).digest())
+        with frozen_time():
+            C8.make_audit(self.audit, self.root, vid=hashlib.sha1(b"v%s" % str(uniq).encode()).digest())
+        os.utime(self.audit, ns=(10**18, 10**18))
         self.canon = treecanon.canon(self.root, ignore=False)
         with open(self.audit, "rb") as f:
             self.audit_bytes = f.read()
@@ -468,7 +502,7 @@ def plain_upload(base, payload, n):
     """artifact bytes of a payload, produced by an undisturbed upload into a side archive"""
     A = _bob()[0]
     arch = os.path.join(base, "side%s" % n)
-    with C8.silence():
+    with C8.silence(), frozen_time():
         r = C8.local_archive(arch)._uploadPackage(BID, A.ARTIFACT_SUFFIX, payload.audit, payload.root)
     if r[0] != "ok":
         raise RuntimeError("undisturbed upload failed: %r" % (r,))
@@ -482,16 +516,22 @@ _ident_cache = {}
 def identify(scratch, data, payloads):
     """which payload is this artifact? -> index | ('invalid', why).  Extraction by Bob's own downloader."""
     A, BuildError, BobError = _bob()
-    key = hashlib.blake2b(data, digest_size=12).digest()
+    # gzip.open(fileobj) stores the current time and the (random) name of the temporary file in the header:
+    # two uploads of one payload differ only there.  If the header is exactly of that well-formed shape
+    # (magic, deflate, FNAME only, NUL-terminated name) those bytes are left out of the cache key.
+    norm = data
+    if data[:4] == b"\x1f\x8b\x08\x08" and len(data) > 10:
+        z = data.find(b"\0", 10)
+        if 10 < z < 300:
+            norm = data[:4] + data[8:10] + data[z:]
+    key = hashlib.blake2b(norm, digest_size=12).digest()
     ck = (scratch, key)
     if ck in _ident_cache:
         return _ident_cache[ck]
     arch = os.path.join(scratch, "ident-arch")
     dl = os.path.join(scratch, "ident-dl")
-    vlib.rmtree(arch) if os.path.exists(arch) else None
-    vlib.rmtree(dl) if os.path.exists(dl) else None
     ap = name_of(arch, BID, ".tgz")
-    os.makedirs(os.path.dirname(ap)); os.makedirs(dl)
+    os.makedirs(os.path.dirname(ap), exist_ok=True); os.makedirs(dl, exist_ok=True)
     with open(ap, "wb") as f:
         f.write(data)
     dst, a2 = os.path.join(dl, "workspace"), os.path.join(dl, "audit.json.gz")
@@ -521,7 +561,6 @@ def identify(scratch, data, payloads):
                 res = ("invalid", "extracts, but equals none of the payloads" +
                        (": tree differs from payload %d: %r" % (near[0], treecanon.diff(payloads[near[0]].canon, c, 4))
                         if near else " (audit trail of none of them)"))
-    vlib.rmtree(arch); vlib.rmtree(dl)
     if len(_ident_cache) > 4000:
         _ident_cache.clear()
     _ident_cache[ck] = res
@@ -602,6 +641,7 @@ class Single:
             os.makedirs(os.path.dirname(ap))
             with open(ap, "wb") as f:
                 f.write(data)
+            self.srcdata = data
             self.flags.append("cache")
 
     def close(self):
@@ -611,12 +651,21 @@ class Single:
     def run(self, plan):
         A, BuildError, BobError = _bob()
         self.n += 1
-        run = os.path.join(self.base, "r%d" % self.n)
+        run = self.base
         arch = os.path.join(run, "arch")
-        os.makedirs(run)
         h = self.bid.hex()
-        for d in [arch, os.path.join(arch, h[0:2]), os.path.join(arch, h[0:2], h[2:4])][:self.predirs]:
-            os.mkdir(d)
+        # fresh archive: no files; exactly the first `predirs` directory levels exist.  The skeleton is re-used
+        # between runs (rmdir costs > 1 ms here), so only what has to be absent is removed.
+        keep = [arch, os.path.join(arch, h[0:2]), os.path.join(arch, h[0:2], h[2:4])][:plan.get("predirs", self.predirs)]
+        if os.path.isdir(arch):
+            for dp, dn, fn in os.walk(arch, topdown=False):
+                for f in fn:
+                    os.unlink(os.path.join(dp, f))
+                if dp not in keep:
+                    os.rmdir(dp)
+        for d in keep:
+            if not os.path.isdir(d):
+                os.mkdir(d)
         name = name_of(arch, self.bid, self.suffix)
         dest = os.path.dirname(name)
         pre = None                                       # content under the name before the run
@@ -665,9 +714,10 @@ class Single:
                         outcome, msg = classify(r), r[0]
                     else:
                         ws = os.path.join(run, "ws", "workspace")
-                        os.makedirs(os.path.dirname(ws))
+                        os.makedirs(os.path.dirname(ws), exist_ok=True)
                         if self.damage[0] == "nows":        # the workspace cannot be created: extraction fails
-                            with open(ws, "w") as f: f.write("in the way")
+                            if not os.path.isfile(ws):
+                                with open(ws, "w") as f: f.write("in the way")
                             ws = os.path.join(ws, "sub")
                         src = A.LocalArchive({"backend": "file", "path": self.srcarch})
                         r = src._downloadPackage(BID, A.ARTIFACT_SUFFIX, os.path.join(run, "ws", "audit.json.gz"), ws, [la], ws)
@@ -684,6 +734,9 @@ class Single:
             for f in tr.files:
                 try: f.close()
                 except Exception: pass
+            for f in tr.outside_files:
+                try: os.unlink(f)
+                except OSError: pass
         watch.attach()
         events = [ev for (ev, nm) in watch.poll() if nm == os.path.basename(name)]
         watch.close()
@@ -728,8 +781,13 @@ class Single:
                 if got != data:
                     ctx.fail("meta-read-differs", "%s: _downloadLocalFile returns %r..., the file holds %r..." % (what, got[:20] if got else got, data[:20]), case)
         else:
-            if present:
+            if present and self.kind == "mirror" and data == self.srcdata:
+                ident = 0                 # a complete copy of the (possibly damaged) source artifact
+            elif present:
                 ident = identify(self.base, data, self.payloads)
+                if self.kind == "mirror" and ident == 0:
+                    ident = ("invalid", "not a byte copy of the source artifact (%d bytes)" % len(self.srcdata))
+            if present:
                 if isinstance(ident, tuple):
                     ctx.fail("incomplete-artifact:" + at, "%s: %s (%d bytes) is not a complete valid artifact: %s" %
                              (what, rel, len(data), ident[1]), case)
@@ -792,35 +850,42 @@ def enumerate_single(ctx, case):
             res = env.run(plan)
             env.judge(plan, res)
             return
-        ref = env.run({})
-        env.judge({}, ref)
-        ops = ref["ops"]
-        if env.kind == "package" and ref["outcome"] != "ok":
-            ctx.fail("upload-fails-without-fault", "reference run: %s %s" % (ref["outcome"], ref["msg"]), dict(case, only={}))
-        if env.kind == "package" and not ref["outside_tmp"] and not any(o[0] == "link" for o in ops):
-            ctx.label("single:publish-without-link")
-        vlib.rmtree(ref["run"])
+        # Two reference traces: with the generated number of pre-existing directory levels (its prefix up to
+        # the creation of the temporary file is enumerated: probes, mkdirs) and with all levels present (the rest
+        # is enumerated on that one; the archive skeleton is then re-used without any rmdir).
         errs = case["errnos"]
         plans = []
-        tmp_at = min([i for i, o in enumerate(ops) if o[0] in ("tmpcreate", "create")] or [len(ops)])
-        for k, (kind, arg) in enumerate(ops):
-            plans.append({"competitor": k})
-            if kind in PROBES:
-                continue
-            plans.append({"fault": ["kill", k, "before"]})
-            plans.append({"fault": ["kill", k, "after"]})
-            if kind == "write" and arg[1] > 1:
-                plans.append({"fault": ["kill", k, "mid"]})
-            plans.append({"fault": ["error", k, ERRNOS[errs[k % len(errs)] % 3], bool(case.get("sticky"))]})
-        plans.append({"preexisting": True})
+        for pd in sorted({env.predirs, 3}):
+            ref = env.run({"predirs": pd})
+            env.judge({"predirs": pd}, ref)
+            ops = ref["ops"]
+            if env.kind == "package" and ref["outcome"] != "ok":
+                ctx.fail("upload-fails-without-fault", "reference run: %s %s" % (ref["outcome"], ref["msg"]), dict(case, only={"predirs": pd}))
+            if ref["outside_tmp"]:
+                ctx.label("single:temporary-file-outside-archive")
+            tmp_at = min([i for i, o in enumerate(ops) if o[0] in ("tmpcreate", "create")] or [len(ops)])
+            for k, (kind, arg) in enumerate(ops):
+                if (k > tmp_at) != (pd == 3) and env.predirs != 3:
+                    continue
+                plans.append(({"predirs": pd, "competitor": k}, ops, tmp_at))
+                if kind in PROBES:
+                    continue
+                plans.append(({"predirs": pd, "fault": ["kill", k, "before"]}, ops, tmp_at))
+                plans.append(({"predirs": pd, "fault": ["kill", k, "after"]}, ops, tmp_at))
+                if kind == "write" and arg[1] > 1:
+                    plans.append(({"predirs": pd, "fault": ["kill", k, "mid"]}, ops, tmp_at))
+                plans.append(({"predirs": pd, "fault": ["error", k, ERRNOS[errs[k % len(errs)] % 3], bool(case.get("sticky"))]}, ops, tmp_at))
+        plans.append(({"predirs": 3, "preexisting": True}, ops, tmp_at))
         for (j, k, fk, e) in case.get("pairs", []):
             j %= len(ops)
             cand = [i for i in range(j, len(ops)) if ops[i][0] not in PROBES]
             if not cand: continue
             k = cand[k % len(cand)]
             f = ["kill", k, ["before", "after", "mid"][fk % 3]] if fk < 3 else ["error", k, ERRNOS[e % 3], False]
-            plans.append({"competitor": j, "fault": f})
-        for plan in plans:
+            plans.append(({"predirs": 3, "competitor": j, "fault": f}, ops, tmp_at))
+        ctx.label("single:traces")
+        ctx.label("single:trace-len:%d" % (len(ops) // 5 * 5))
+        for (plan, ops, tmp_at) in plans:
             if ctx.out_of_time():
                 ctx.label("single:enumeration-cut-by-time-guard")
                 break
@@ -831,18 +896,440 @@ def enumerate_single(ctx, case):
             nontriv = any(p >= tmp_at for p in pts)
             lab = ["single:%s:%s" % (env.kind, "competitor+" + f[0] if f and "competitor" in plan else
                                      f[0] + (":" + f[2] if f[0] == "kill" else "") if f else
-                                     "competitor" if "competitor" in plan else "preexisting"),
+                                     "competitor" if "competitor" in plan else "preexisting" if plan.get("preexisting") else "none"),
                    "single:outcome:%s:%s" % (res["outcome"], "present" if present else "absent")]
             if f: lab.append("single:fault-at:" + (ops[f[1]][0] if f[1] < len(ops) else "?"))
             ctx.record(jhash([case["ops"], case["spec"], case["kind"], case.get("meta"), case.get("mirror"), plan]), nontriv, lab,
                        {"layer": "single", "kind": env.kind, "spec": case["spec"], "trace": [o[0] for o in ops],
                         "plan": plan_str(plan, ops), "outcome": res["outcome"], "name_present": present}
                        if nontriv and f and f[0] == "kill" and ops[f[1]][0] in ("link", "close", "replace") else None)
-            vlib.rmtree(res["run"])
-        ctx.label("single:traces")
-        ctx.label("single:trace-len:%d" % (len(ops) // 5 * 5))
     finally:
         env.close()
+
+
+# --------------------------------------------------------------------------------------- sched
+class LineReader:
+    def __init__(self, fd):
+        self.fd, self.buf = fd, b""
+
+    def readline(self, timeout):
+        """one line without the newline; None at end of file; TimeoutError"""
+        while b"\n" not in self.buf:
+            if timeout is not None:
+                r, _, _ = select.select([self.fd], [], [], timeout)
+                if not r:
+                    raise TimeoutError("no message from worker within %s s" % timeout)
+            chunk = os.read(self.fd, 65536)
+            if not chunk:
+                return None
+            self.buf += chunk
+        line, self.buf = self.buf.split(b"\n", 1)
+        return line
+
+
+def worker_main(rfd, wfd):
+    """body of a (re-usable) worker process: executes jobs, every file-system operation gated by the parent"""
+    try:
+        ctypes.CDLL(None).prctl(1, signal.SIGKILL)           # PR_SET_PDEATHSIG: never outlive the shard
+    except Exception:
+        pass
+    dn = os.open(os.devnull, os.O_RDWR)
+    os.dup2(dn, 0); os.dup2(dn, 1); os.dup2(dn, 2)
+    sys.stdout = sys.stderr = open(os.devnull, "w")
+    rd = LineReader(rfd)
+    def send(obj):
+        os.write(wfd, json.dumps(obj).encode() + b"\n")
+    def gate(k, kind, arg):
+        send({"t": "op", "k": k, "kind": kind, "arg": arg})
+        line = rd.readline(None)
+        if line is None:
+            os._exit(0)
+        return line.decode()
+    while True:
+        line = rd.readline(None)
+        if line is None:
+            os._exit(0)
+        job = json.loads(line)
+        try:
+            res = run_job(job, gate, send)
+        except BaseException:
+            res = {"t": "done", "outcome": "harness-error", "msg": traceback.format_exc()}
+        send(res)
+
+
+def run_job(job, gate, send):
+    A, BuildError, BobError = _bob()
+    if job["role"] == "reader":
+        return reader_job(job, gate, send)
+    plan = {"fault": job["fault"], "fault_index": "mut"} if job.get("fault") else {}
+    tr = Tracer([job["arch"]], plan, gate=gate, real_kill=True)
+    la = A.LocalArchive(dict(job["spec"], path=job["arch"]))
+    um = os.umask(0o022)
+    undo = install(tr)
+    outcome, msg = None, ""
+    try:
+        try:
+            if job["role"] == "uploader":
+                r = la._uploadPackage(BID, A.ARTIFACT_SUFFIX, job["audit"], job["root"])
+                outcome, msg = classify(r), r[0]
+            else:
+                src = A.LocalArchive({"backend": "file", "path": job["src"]})
+                r = src._downloadPackage(BID, A.ARTIFACT_SUFFIX, job["audit"], job["ws"], [la], job["ws"])
+                outcome, msg = ("ok" if r[0] else "error"), str(r[1])
+        except BuildError as e:
+            outcome, msg = "builderror", str(e)
+        except Exception as e:
+            outcome, msg = "exception", "%s: %s" % (type(e).__name__, e)
+    finally:
+        undo()
+        os.umask(um)
+        for f in tr.files:
+            try: f.close()
+            except Exception: pass
+        for f in tr.outside_files:
+            try: os.unlink(f)
+            except OSError: pass
+    return {"t": "done", "outcome": outcome, "msg": msg[:300], "ops": tr.ops, "fired": tr.fired, "tmp": sorted(tr.tmpnames)}
+
+
+def reader_job(job, gate, send):
+    """exists? -> open -> read in chunks; the bytes are handed to the parent for validation"""
+    name, k, n = job["name"], 0, 0
+    while True:
+        k0 = k
+        g = gate(k, "r-exists", ""); k += 1
+        final = g == "f"
+        n += 1
+        if not os.path.lexists(name):
+            send({"t": "obs", "k": k0, "v": "absent"})
+        else:
+            g = gate(k, "r-open", ""); k += 1
+            final = final or g == "f"
+            try:
+                f = open(name, "rb")
+            except FileNotFoundError:
+                send({"t": "obs", "k": k0, "v": "vanished"})
+                f = None
+            if f is not None:
+                data = b""
+                while True:
+                    g = gate(k, "r-read", ""); k += 1
+                    chunk = f.read(job["chunk"])
+                    if not chunk:
+                        break
+                    data += chunk
+                f.close()
+                out = os.path.join(job["out"], "obs-%d-%d" % (job["idx"], n))
+                with open(out, "wb") as o:
+                    o.write(data)
+                send({"t": "obs", "k": k0, "v": "file", "file": out})
+        if final or n >= job["max_iter"]:
+            break
+    return {"t": "done", "outcome": "ok", "msg": "", "ops": [], "fired": []}
+
+
+class Proc:
+    """parent side of one worker process"""
+    def __init__(self, inherited):
+        p2c_r, p2c_w = os.pipe()
+        c2p_r, c2p_w = os.pipe()
+        sys.stdout.flush(); sys.stderr.flush()
+        pid = os.fork()
+        if pid == 0:
+            try:
+                os.close(p2c_w); os.close(c2p_r)
+                for fd in inherited:
+                    try: os.close(fd)
+                    except OSError: pass
+                worker_main(p2c_r, c2p_w)
+            finally:
+                os._exit(121)
+        os.close(p2c_r); os.close(c2p_w)
+        self.pid, self.wfd, self.rfd, self.rd = pid, p2c_w, c2p_r, LineReader(c2p_r)
+        self.alive = True
+
+    def send(self, obj):
+        os.write(self.wfd, (obj if isinstance(obj, bytes) else json.dumps(obj).encode()) + b"\n")
+
+    def recv(self, timeout=90):
+        line = self.rd.readline(timeout)
+        return None if line is None else json.loads(line)
+
+    def kill(self):
+        if not self.alive:
+            return
+        self.alive = False
+        try: os.kill(self.pid, signal.SIGKILL)
+        except ProcessLookupError: pass
+        try: os.waitpid(self.pid, 0)
+        except ChildProcessError: pass
+        os.close(self.wfd); os.close(self.rfd)
+
+
+class Pool:
+    def __init__(self):
+        self.procs = []
+        self.forks = 0
+
+    def get(self, i):
+        while len(self.procs) <= i:
+            self.procs.append(None)
+        p = self.procs[i]
+        if p is None or not p.alive:
+            inherited = [fd for q in self.procs if q is not None and q.alive for fd in (q.wfd, q.rfd)]
+            p = self.procs[i] = Proc(inherited)
+            self.forks += 1
+        return p
+
+    def shutdown(self):
+        for p in self.procs:
+            if p is not None:
+                p.kill()
+        self.procs = []
+
+POOL = Pool()
+
+
+def damage_bytes(data, d):
+    if d[0] == "trunc":
+        return data[: d[1] % len(data)]
+    if d[0] == "flip":
+        i = d[1] % len(data)
+        return data[:i] + bytes([data[i] ^ (1 << (d[2] % 8))]) + data[i + 1:]
+    return data
+
+
+def run_sched(ctx, case):
+    try:
+        return _run_sched(ctx, case)
+    except BaseException:
+        POOL.shutdown()              # workers may be in the middle of a job: start afresh
+        raise
+
+
+def _run_sched(ctx, case):
+    A, BuildError, BobError = _bob()
+    base = ctx.tmpdir()
+    sp = case["spec"]
+    spec = {"backend": "file", "flags": ["upload", "download"] + (["nofail"] if sp.get("nofail") else [])}
+    if sp.get("fileMode") is not None: spec["fileMode"] = sp["fileMode"]
+    if sp.get("dirMode") is not None: spec["directoryMode"] = sp["dirMode"]
+    arch = os.path.join(base, "B")
+    h = BID.hex()
+    for d in [arch, os.path.join(arch, h[0:2]), os.path.join(arch, h[0:2], h[2:4])][:sp.get("predirs", 0)]:
+        os.mkdir(d)
+    name = name_of(arch, BID, ".tgz")
+    dest, rel = os.path.dirname(name), os.path.relpath(name, arch)
+    payloads = [Payload(base, "P%d" % i, ops, i) for i, ops in enumerate(case["payloads"][:case.get("u", 3)])]
+    faults = list(case.get("faults") or [])
+    jobs = []
+    for i, p in enumerate(payloads):
+        f = faults[i] if i < len(faults) else None
+        jobs.append({"role": "uploader", "arch": arch, "spec": spec, "audit": p.audit, "root": p.root,
+                     "fault": ([f[0], f[1], f[2]] if f[0] == "kill" else ["error", f[1], ERRNOS[f[2] % 3]]) if f else None})
+    srcdata, mirror_idx = None, None
+    if case.get("mirror"):
+        M = Payload(base, "M", case["mirror"].get("ops", []), "M")
+        srcdata = damage_bytes(plain_upload(base, M, "m"), case["mirror"]["damage"])
+        srcarch = os.path.join(base, "A")
+        ap = name_of(srcarch, BID, ".tgz")
+        os.makedirs(os.path.dirname(ap))
+        with open(ap, "wb") as fh:
+            fh.write(srcdata)
+        ws = os.path.join(base, "mws", "workspace")
+        os.makedirs(os.path.dirname(ws))
+        if case["mirror"]["damage"][0] == "nows":
+            with open(ws, "w") as fh: fh.write("in the way")
+            ws = os.path.join(ws, "sub")
+        mirror_idx = len(payloads)
+        payloads.append(M)
+        jobs.append({"role": "mirror", "arch": arch, "src": srcarch, "audit": os.path.join(base, "mws", "audit.json.gz"),
+                     "ws": ws, "spec": dict(spec, flags=spec["flags"] + ["cache"]), "fault": None})
+    nwork = len(jobs)
+    robs = os.path.join(base, "robs"); os.makedirs(robs)
+    for j in range(case["readers"]):
+        jobs.append({"role": "reader", "name": name, "out": robs, "idx": j, "chunk": [4096, 32768, 1 << 20][case.get("chunk", 1) % 3],
+                     "max_iter": 16})
+    if not jobs:
+        return
+
+    def ident(data):
+        if srcdata is not None and data == srcdata:
+            return mirror_idx
+        r = identify(base, data, payloads)
+        if r == mirror_idx:
+            return ("invalid", "extracts to the mirrored payload but is not a byte copy of the source artifact")
+        return r
+
+    procs = [POOL.get(i) for i in range(len(jobs))]
+    watch = Watch(dest)
+    pending = {}                 # worker index -> op message it is blocked on
+    done = {}                    # worker index -> done message | {"outcome": "killed"}
+    granted = [dict() for _ in jobs]   # local op index -> global step
+    reader_obs = []
+    traces = [[] for _ in jobs]
+    step = [0]
+
+    def advance(i):
+        """read the messages of worker i until it blocks on the next operation or finishes"""
+        while True:
+            m = procs[i].recv()
+            if m is None:
+                procs[i].kill()
+                done[i] = {"outcome": "killed", "msg": "", "fired": ["kill"], "ops": traces[i]}
+                pending.pop(i, None)
+                if not (jobs[i].get("fault") and jobs[i]["fault"][0] == "kill"):
+                    raise RuntimeError("worker %d (%s) died unexpectedly" % (i, jobs[i]["role"]))
+                return
+            if m["t"] == "op":
+                pending[i] = m
+                traces[i].append([m["kind"], m["arg"]])
+                return
+            if m["t"] == "obs":
+                reader_obs.append((i, granted[i].get(m["k"], -1), m))
+                continue
+            if m["t"] == "done":
+                pending.pop(i, None)
+                if m["outcome"] == "harness-error":
+                    raise RuntimeError("worker %d: %s" % (i, m["msg"]))
+                done[i] = m
+                return
+
+    states = []                  # distinct successive states of the name as seen by the parent after every step
+    last = [None]
+    def describe_step():
+        return "after step %d" % step[0]
+    def observe(who):
+        try:
+            s = os.lstat(name)
+            cur = (s.st_ino, s.st_size, s.st_mtime_ns, stat.S_IFMT(s.st_mode))
+        except FileNotFoundError:
+            cur = None
+        if cur == last[0]:
+            return
+        v = None
+        if cur is not None:
+            with open(name, "rb") as fh:
+                v = ident(fh.read())
+        prev = states[-1] if states else None
+        states.append((step[0], cur, v, who))
+        last[0] = cur
+        if isinstance(v, tuple):
+            ctx.fail("incomplete-artifact:sched", "step %d (%s): %s (%d bytes) is not a complete valid artifact: %s; schedule so far: %s" %
+                     (step[0], who, rel, cur[1], v[1], history()), case)
+        if prev is not None and prev[1] is not None:
+            ctx.fail("overwritten" if cur is not None else "artifact-removed",
+                     "step %d (%s): the artifact present since step %d (payload %s, inode %d) %s; schedule: %s" %
+                     (step[0], who, prev[0], (prev[2],), prev[1][0],
+                      "is gone" if cur is None else "was replaced/modified: now payload %s, inode %d, %d bytes" % ((v,), cur[0], cur[1]), history()), case)
+
+    log = []
+    def history():
+        return " ".join("%s%d:%s" % (jobs[i]["role"][0].upper(), i, kd) for (i, kd) in log[-40:])
+
+    for i, j in enumerate(jobs):
+        procs[i].send(j)
+    for i in range(len(jobs)):
+        advance(i)
+    sched = case["schedule"]
+    while pending:
+        runnable = sorted(pending)
+        workers_left = [i for i in runnable if i < nwork]
+        if sched:
+            # the generated list is the schedule (used cyclically); uploaders/mirror weigh twice a reader
+            slots = [i for i in runnable for _ in range(2 if i < nwork else 1)]
+            pick = slots[sched[step[0] % len(sched)] % len(slots)]
+        else:
+            pick = workers_left[0] if workers_left else runnable[0]
+        all_workers_done = all(i in done for i in range(nwork))
+        granted[pick][pending[pick]["k"]] = step[0]
+        log.append((pick, pending[pick]["kind"]))
+        m = pending.pop(pick)
+        procs[pick].send(b"f" if (pick >= nwork and all_workers_done) else b"g")
+        advance(pick)
+        step[0] += 1
+        watch.attach()
+        observe("%s%d %s" % (jobs[pick]["role"], pick, m["kind"]))
+        if step[0] > 3000:
+            raise RuntimeError("schedule does not terminate")
+    watch.attach()
+    events = [ev for (ev, nm) in watch.poll() if nm == os.path.basename(name)]
+    watch.close()
+
+    # ---- oracle on the whole run
+    final = states[-1] if states else None
+    present = final is not None and final[1] is not None
+    pfinal = final[2] if present else None
+    first_present = final[0] if present else None
+    killed = [i for i in range(nwork) if done[i]["outcome"] == "killed"]
+    def fault_kind(i):
+        f = jobs[i].get("fault")
+        if not f or "error" not in done[i].get("fired", []): return "-"
+        mut = [o for o in done[i]["ops"] if o[0] not in PROBES]
+        return mut[f[1]][0] if f[1] < len(mut) else "-"
+    outcomes = ["%s%d=%s" % (jobs[i]["role"], i, done[i]["outcome"]) for i in range(nwork)]
+    what = "outcomes %s; final: %s; schedule: %s" % (" ".join(outcomes), "payload %s" % (pfinal,) if present else "absent", history())
+    for (i, gstep, m) in reader_obs:
+        if m["v"] == "file":
+            with open(m["file"], "rb") as fh:
+                v = ident(fh.read())
+            if isinstance(v, tuple):
+                ctx.fail("reader-saw-incomplete", "reader %d (exists? at step %d) read an artifact that is not complete: %s; %s" % (i, gstep, v[1], what), case)
+            if v != pfinal:
+                ctx.fail("reader-saw-other-payload", "reader %d (step %d) read payload %s; %s" % (i, gstep, v, what), case)
+        elif first_present is not None and gstep >= first_present:
+            ctx.fail("reader-saw-absent-after-present", "reader %d looked at step %d and found the name %s, but it is present since step %d; %s" %
+                     (i, gstep, m["v"], first_present, what), case)
+    for i in range(nwork):
+        o = done[i]["outcome"]
+        if jobs[i]["role"] == "uploader" and o in ("ok", "exists") and not present:
+            ctx.fail("reported-%s-but-absent" % o, "uploader %d reported %s; %s" % (i, o, what), case)
+    if present and isinstance(pfinal, int) and done[pfinal]["outcome"] in ("error", "builderror", "exception"):
+        if "error" in done[pfinal].get("fired", []):
+            ctx.fail("failed-but-present:" + fault_kind(pfinal), "worker %d failed (%s) yet its artifact is published; %s" %
+                     (pfinal, done[pfinal]["msg"], what), case)
+        elif pfinal == mirror_idx:
+            ctx.fail("cache-committed-though-download-failed", "the mirroring download failed (%s, damage %r) yet the cache holds its artifact; %s" %
+                     (done[pfinal]["msg"], case["mirror"]["damage"], what), case)
+        else:
+            ctx.fail("failed-but-present:-", "worker %d failed (%s) without injected fault yet its artifact is published; %s" %
+                     (pfinal, done[pfinal]["msg"], what), case)
+    for i in range(nwork):
+        if jobs[i]["role"] == "uploader" and done[i]["outcome"] in ("error", "builderror", "exception") and "error" not in done[i].get("fired", []):
+            ctx.fail("upload-fails-without-fault", "uploader %d: %s; %s" % (i, done[i]["msg"], what), case)
+    left = [x for x in (list_files(arch) if os.path.isdir(arch) else []) if x != rel]
+    for x in left:
+        owner = [i for i in range(nwork) if os.path.basename(x) in done[i].get("tmp", [])]
+        if owner:            # a worker that was not killed left its temporary file behind
+            ctx.fail("tempfile-left:" + fault_kind(owner[0]), "%s left in the archive by worker %d (%s: %s); %s" %
+                     (x, owner[0], done[owner[0]]["outcome"], done[owner[0]]["msg"], what), case)
+    if len([x for x in left if not any(os.path.basename(x) in done[i].get("tmp", []) for i in range(nwork))]) > len(killed):
+        ctx.fail("tempfile-left:-", "files left in the archive: %r with %d killed workers; %s" % (left, len(killed), what), case)
+    if [e for e in events if e in ("modify", "close_write")]:
+        ctx.fail("written-in-place", "inotify saw %r on %s; %s" % (events, rel, what), case)
+    if [e for e in events if e in ("delete", "moved_from")]:
+        ctx.fail("artifact-name-unlinked", "inotify saw %r on %s; %s" % (events, rel, what), case)
+    if len([e for e in events if e in ("create", "moved_to")]) > 1:
+        ctx.fail("overwritten", "inotify saw %r on %s: an existing artifact was replaced; %s" % (events, rel, what), case)
+
+    linkers = sum(1 for i in range(nwork) if any(o[0] in ("link", "replace", "rename") for o in traces[i]))
+    seen = {}
+    for (i, gstep, m) in reader_obs:
+        seen.setdefault(i, set()).add("present" if m["v"] == "file" else "absent")
+    both = any(len(v) == 2 for v in seen.values())
+    nontriv = linkers >= 2 and both
+    labels = ["sched:u%d:r%d%s" % (nwork - (1 if case.get("mirror") else 0), case["readers"], ":mirror" if case.get("mirror") else ""),
+              "sched:publishers:%d" % linkers, "sched:final:%s" % ("present" if present else "absent"),
+              "sched:reader-saw-both" if both else "sched:reader-one-sided"]
+    labels += ["sched:outcome:" + done[i]["outcome"] for i in range(nwork)]
+    ctx.extra["sched_steps"] = ctx.extra.get("sched_steps", 0) + step[0]
+    ctx.extra["sched_forks"] = POOL.forks
+    ctx.record(jhash(case), nontriv, labels,
+               {"layer": "sched", "uploaders": nwork - (1 if case.get("mirror") else 0), "readers": case["readers"], "mirror": case.get("mirror"),
+                "faults": faults, "steps": step[0], "interleaving": history(), "outcomes": outcomes,
+                "final": "payload %s" % (pfinal,) if present else "absent",
+                "reader_observations": [("r%d" % i, gstep, m["v"]) for (i, gstep, m) in reader_obs][:12]} if nontriv else None)
+    vlib.rmtree(base)
 
 
 # --------------------------------------------------------------------------------------- strategies
@@ -874,13 +1361,40 @@ single_case = st.fixed_dictionaries({
 })
 
 
+fault_st = st.one_of(st.none(), st.none(), st.none(),
+                     st.tuples(st.just("kill"), st.integers(0, 30), st.sampled_from(["before", "after", "mid"])).map(list),
+                     st.tuples(st.just("error"), st.integers(0, 30), st.integers(0, 2)).map(list))
+sched_case = st.fixed_dictionaries({
+    "layer": st.just("sched"),
+    "payloads": st.lists(payload_ops, min_size=3, max_size=3),
+    "u": st.sampled_from([1, 2, 2, 3, 3]),
+    "readers": st.integers(1, 2),
+    "chunk": st.integers(0, 2),
+    "spec": spec_st,
+    "faults": st.lists(fault_st, min_size=3, max_size=3),
+    "mirror": st.one_of(st.none(), st.none(), st.fixed_dictionaries({
+        "ops": payload_ops, "damage": st.one_of(
+            st.just(["none"]), st.just(["none"]), st.tuples(st.just("trunc"), st.integers(0, 10**6)).map(list),
+            st.tuples(st.just("flip"), st.integers(0, 10**6), st.integers(0, 7)).map(list), st.just(["nows"]))})),
+    "schedule": st.lists(st.integers(0, 11), min_size=20, max_size=120),
+})
+
+
 def shard(ctx):
     from vlib import bobproc
     bobproc.warm()
     if os.environ.get("VERIF_C09_ASSUME_KNOWN"):
         ctx.active_findings = list(FINDINGS)
-    run_hypothesis(ctx, single_case, lambda c: run_case(ctx, c), ctx.n(640, 6000), shrink=False, salt="single",
-                   minimize=("ops", "xops"), max_rootcauses=5)
+    t_all = ctx.deadline - ctx.t0
+    try:
+        ctx.deadline = ctx.t0 + t_all * 0.45
+        run_hypothesis(ctx, single_case, lambda c: run_case(ctx, c), ctx.n(2400, 24000), shrink=False, salt="single",
+                       minimize=("ops", "xops"), max_rootcauses=8)
+        ctx.deadline = ctx.t0 + t_all
+        run_hypothesis(ctx, sched_case, lambda c: run_case(ctx, c), ctx.n(40000, 400000), shrink=False, salt="sched",
+                       minimize=("schedule",), max_rootcauses=8)
+    finally:
+        POOL.shutdown()
 
 
 def run_case(ctx, case):
@@ -890,7 +1404,10 @@ def run_case(ctx, case):
 
 
 def replay(ctx, case):
-    run_case(ctx, case)
+    try:
+        run_case(ctx, case)
+    finally:
+        POOL.shutdown()
 
 
 def _leak(signature, case, detail):
